@@ -158,7 +158,7 @@ class C03(Property):
             return out
         tcs = [c for c in spec["comps"] if c["type"] == "time"]
         # bounded progress
-        dsum = sum(max(c["steps"]) * c.get("publish_every", 1) for c in tcs) + sum(a[1] for ln in spec["links"] for a in ln["chain"] if a[0] == "dfix")
+        dsum = sum(max(c["steps"]) * c.get("publish_every", 1) for c in tcs) + sum(abs(a[1]) for ln in spec["links"] for a in ln["chain"] if a[0] == "dfix")  # look-ahead links (negative delay) also make the source run further
         # (a component that starts after end + D is never needed: its term is 0, not negative)
         bound = sum(max(0, math.ceil((end + dsum - c["start"]) / min(c["steps"]))) for c in tcs) + len(tcs) + 1
         if rep.n_updates > bound:
